@@ -417,6 +417,9 @@ inductive Op where
   | srange (d i j : Nat) (w : String)         -- v[d][i..j] = "w"        (unlink_string_svalue + copy_lvalue_range)
   | clones (n : Nat) | unclone (n : Nat)   -- n further clones of /c06/uobj (only their program reference is modelled)
   | unload (w : Nat)                        -- destruct + clean up the blueprint object of /c06/uobj (0) or /c06/base (1)
+  | arange (d i len n t f : Nat)            -- v[d][i .. i+len-1] = <temporary array of n copies of v[t]>; f = 1: value form x = (...)
+  | arangev (d i len t f : Nat)             -- v[d][i .. i+len-1] = v[t] (an array that other holders share)
+  | brange (d i len n : Nat)                -- the same on a buffer with a temporary buffer of n bytes
   | reclaimu                                -- reclaim_objects() in unit mode: the variables of every object are walked (check_svalue)
   | reclaim                                 -- reclaim_objects(): references to destructed objects found in object variables are released
   | newobjr (o L : Nat)                     -- clone of /c06/rc<L>: inherits ra<L> (layNa L variables) and rb<L> (layNb L variables)
@@ -617,6 +620,34 @@ def anonCount (s : St) : Nat := (anonSlots s).length
     baseline and are gone (the blueprints are roots of the model, not object cells) -/
 def unloadedCount (s : St) : Nat := (if isNumRoot s rProg then 1 else 0) + (if isNumRoot s rBase then 1 else 0)
 
+/-! ### assignment to an array range lvalue (copy_lvalue_range / assign_lvalue_range of src/interpret.c)
+
+`owner[i .. i+len-1] = rhs` with the right-hand array `fv` (cell fv, n elements) as the top value in transit; c = the
+owner's array (size elements), held by slot d.
+ * statement form (F_VOID_ASSIGN, copy_lvalue_range):
+     n = len, fv->ref == 1 : every replaced element is released, the new one MOVED in (`*dptr++ = *fptr++`), free_empty_array(fv)
+     n = len, shared       : assign_svalue element by element, `fv->ref--`
+     n ≠ len               : a new array: prefix copied (counted), fv's elements moved (ref == 1) or copied (counted),
+                             suffix copied, free_array(old), owner->u.arr = new
+ * value form (F_ASSIGN, assign_lvalue_range): always copies (counted); the right-hand side stays on the stack and is
+   popped by the caller (model: released at the end). -/
+def rangeProg (c size d i len fv n dv : Nat) (moveRhs valueForm : Bool) : List Mi :=
+  if n == len then
+    (List.range n).flatMap (fun k =>
+      if moveRhs && !valueForm then [Mi.take (.item c (i + k)), .free, .take (.item fv k), .put (.item c (i + k))]
+      else [Mi.take (.item c (i + k)), .free, .dup (.item fv k), .put (.item c (i + k))]) ++ [.free]
+  else
+    -- values in transit: [fv]; the new array dv goes on top of it
+    [Mi.alloc .arr (size - len + n) true "" 0] ++
+    (List.range i).flatMap (fun k => [Mi.dup (.item c k), .put (.item dv k)]) ++
+    (List.range n).flatMap (fun k =>
+      if moveRhs && !valueForm then [Mi.take (.item fv k), .put (.item dv (i + k))]
+      else [Mi.dup (.item fv k), .put (.item dv (i + k))]) ++
+    (if valueForm then [] else [.swap, .free]) ++
+    (List.range (size - (i + len))).flatMap (fun k => [Mi.dup (.item c (i + len + k)), .put (.item dv (i + n + k))]) ++
+    [.take (.root d), .free, .put (.root d)] ++
+    (if valueForm then [.free] else [])
+
 /-! ### reclaim_objects() (lib/efuns/reclaim_object.c)
 
 check_svalue walks the variables of every object of the object list: a destructed object is released and zeroed, arrays
@@ -707,7 +738,7 @@ def compile (s : St) (op : Op) : Option (List Mi) :=
   | .newarr d n => if d < nSlots && 0 < n then some (.alloc .arr n true "" 0 :: intoSlot d) else none
   | .newmap d => if d < nSlots then some (.alloc .map 0 true "" 0 :: intoSlot d) else none
   | .newcls d => if d < nSlots then some (.alloc .cls clsSize true "" 0 :: intoSlot d) else none
-  | .newbuf d n => if d < nSlots && 0 < n then some (.alloc .buf 0 true "" 0 :: intoSlot d) else none
+  | .newbuf d n => if d < nSlots && 0 < n then some (.alloc .buf 0 true "" n :: intoSlot d) else none   -- tag = size in bytes
   | .newstr d w => if d < nSlots then some (.share w :: intoSlot d) else none
   | .newmstr d w => if d < nSlots then some (.alloc .mstr 0 true w 0 :: intoSlot d) else none
   | .newfun d o t =>
@@ -986,6 +1017,34 @@ def compile (s : St) (op : Op) : Option (List Mi) :=
     let sl := anonSlots s
     if sl.length < n || !s.dlist.isEmpty then none
     else some ((sl.take n).flatMap (fun (p, i) => [Mi.take (.item p i), Mi.free]))
+  | .arange d i len n t f =>
+    match slotCell s d with
+    | some (c, cell) =>
+      if d < nSlots && t < nSlots && cell.live && cell.kind == .arr && i + len ≤ cell.items.length && 0 < n && f < 2 then
+        -- the right-hand side: a function result nobody else holds (counter 1), in a stack slot
+        some ([.alloc .arr n false "" 0, .fillFrom fresh (.root t)] ++ rangeProg c cell.items.length d i len fresh n (fresh + 1) true (f == 1))
+      else none
+    | none => none
+  | .arangev d i len t f =>
+    match slotCell s d, slotCell s t with
+    | some (c, cell), some (tc, tcell) =>
+      if d < nSlots && t < nSlots && d != t && cell.live && cell.kind == .arr && i + len ≤ cell.items.length
+          && tcell.live && tcell.kind == .arr && f < 2 then
+        -- the right-hand side is pushed: one more holder, so its counter is not 1
+        some ([.dup (.root t)] ++ rangeProg c cell.items.length d i len tc tcell.items.length fresh false (f == 1))
+      else none
+    | _, _ => none
+  | .brange d i len n =>
+    match slotCell s d with
+    | some (_, cell) =>
+      if d < nSlots && cell.live && cell.kind == .buf && i + len ≤ cell.tag && 0 < n then
+        -- bytes are not counted values: same length = memcpy; other length = a new buffer replaces the owner's
+        -- (free_buffer of the old one); the temporary right-hand buffer is released
+        some ([.alloc .buf 0 false "" n] ++
+              (if n == len then [] else [.alloc .buf 0 true "" (cell.tag - len + n), .take (.root d), .free, .put (.root d)]) ++
+              [.free])
+      else none
+    | none => none
   | .reclaimu => some (reclaimProg s false)
   | .reclaim =>
     -- lpc mode: the same walk; the interpreter object's variables `v` (slots) and `obs` (handles) are object variables
